@@ -246,6 +246,16 @@ func Check(s *Spec) (res Result, ok bool) {
 			return res, false
 		}
 	}
+	if r, ok := behaves(s, b, prog, &res, ""); !ok {
+		return r, false
+	}
+	return res, true
+}
+
+// behaves runs the assembled list and the label program on all 2^(k+1) inputs.
+func behaves(s *Spec, b *Built, prog []cbpf.Insn, resp *Result, prefix string) (Result, bool) {
+	res := *resp
+	defer func() { *resp = res }()
 	k := len(s.Slots)
 	for in := 0; in < 1<<(k+1); in++ {
 		x := uint32(in) & (1<<k - 1)
@@ -264,11 +274,11 @@ func Check(s *Spec) (res Result, ok bool) {
 		got, xerr := cbpf.Run(prog, &d, nil, nil)
 		res.Inputs++
 		if xerr != nil {
-			res.Err, res.Input, res.Want = "execution error: "+xerr.Error(), x, want
+			res.Err, res.Input, res.Want = prefix+"execution error: "+xerr.Error(), x, want
 			return res, false
 		}
 		if got != want {
-			res.Err, res.Input, res.Got, res.Want = "assembled program and label program disagree", x, got, want
+			res.Err, res.Input, res.Got, res.Want = prefix+"assembled program and label program disagree", x, got, want
 			return res, false
 		}
 	}
